@@ -305,6 +305,36 @@ Definition spec_same_call (pd : digest) (s : sd) (n : N) : bool :=
   | _, _ => false
   end.
 
+(* messages for a stream of the sender that carry no session description (candidates): the permission for that
+   stream type - publish-screen for the screen stream; for audio / video what would allow an offer with an audio
+   or with a video section (publish-media, publish-audio or publish-video) *)
+Definition spec_send_allowed (s : sd) (stream : N) : bool :=
+  if N.eqb stream 2 then spec_offer_allowed s 2 0
+  else spec_offer_allowed s stream 1 || spec_offer_allowed s stream 2.
+
+Definition refused_not_allowed (c : N) (ob : obs) : bool :=
+  existsb (fun e => N.eqb (fst e) c && match snd e with SError code => N.eqb code 14 | _ => false end) (all_msgs ob).
+
+(* the gate itself: an offer (message kind 0), and a candidate for the sender's own stream (kind 2, addressed to
+   itself), is answered "not_allowed" exactly when the permission for that stream type is missing (and then nothing
+   is created at the media server) *)
+Definition step_C08_gate (pd : digest) (o : op) (ob : obs) : bool :=
+  match o with
+  | OMedia c (RSession i) mk stream media =>
+      match sd_of_conn pd c with
+      | Some s =>
+          if is_virtual_d s then true
+          else if N.eqb mk 0 then
+            let ok := spec_offer_allowed s stream media in
+            Bool.eqb (refused_not_allowed c ob) (negb ok)
+            && (ok || forallb (fun e => match e with MCreate _ _ _ _ _ => false | _ => true end) ob.(o_mcu))
+          else if N.eqb mk 2 && match i with IdPub n => N.eqb n s.(d_sid) | _ => false end then
+            Bool.eqb (refused_not_allowed c ob) (negb (spec_send_allowed s stream))
+          else true
+      | None => true end
+  | _ => true
+  end.
+
 Definition step_C08 (pd : digest) (o : op) (ob : obs) (dg : digest) : bool :=
   (* creations at the media server need the permission / call membership of the requester *)
   forallb (fun e => match e with
@@ -829,7 +859,7 @@ Definition check_step (which : N) (cfg : pcfg) (last : bool) (ps : pstate) (o : 
   | 5 => if negb cfg.(pc_quiescent) || step_C05 pd o ob then 0 else 1
   | 6 => if negb cfg.(pc_quiescent) || step_C06 ps o ob dg then 0 else 1
   | 7 => if digest_C07 cfg.(pc_limits) dg then 0 else 1
-  | 8 => if step_C08 pd o ob dg then 0 else 1
+  | 8 => if negb (step_C08 pd o ob dg) then 1 else if negb (step_C08_gate pd o ob) then 2 else 0
   | 9 => if digest_C09 dg then 0 else 1
   | 19 => if negb (digest_C19 dg) then 1 else if negb (step_C19 pd o ob dg) then 2
           else if cfg.(pc_quiescent) && negb (part_ok ps.(ps_virt) pd dg o ob) then 3
